@@ -1023,6 +1023,12 @@ pub fn generate(name: &str, seed: u64, tier: &str) -> Vec<Vec<Value>> {
         "c05" => crate::wl_enc::wl_c05(seed, tier),
         "c07" => crate::wl_enc::wl_c07(seed, tier),
         "c19" => crate::wl_enc::wl_c19(seed, tier),
+        "c13" => crate::wl_hash::wl_c13(seed, tier),
+        "c06" => crate::wl_hash::wl_c06(seed, tier),
+        "c14" => crate::wl_hash::wl_c14(seed, tier),
+        "c15" => crate::wl_hash::wl_c15(seed, tier),
+        "c16" => crate::wl_hash::wl_c16(seed, tier),
+        "c17" => crate::wl_hash::wl_c17(seed, tier),
         "c08" => wl_c08(seed, tier),
         "c09" => wl_c09(seed, tier),
         "c18" => wl_c18(seed, tier),
